@@ -837,6 +837,224 @@ def part_b(rep: vlib.Reporter, tier: str, rng: random.Random) -> bool:
 
 
 # ============================================================================================================
+# Part C — Feature objects nested in option values (in_features) next to values that cannot be deep-copied
+# ============================================================================================================
+# Outside Model/Args.v (its option values are not Feature objects): judged directly.  mlodaAPI relies on
+# deepcopy(requested_features) -> Options.__deepcopy__ (per value, with a fallback to sharing for values that cannot be
+# copied) to keep planning -- which writes compute_frameworks, child_options, merged group options, domain, name and
+# data_type of INPUT features -- away from the caller's nested Feature objects.
+
+_nest_counter = [0]
+
+
+class NestUniverse:
+    """Root group (column "s", any compute framework) and two dependent groups whose input features are the Feature objects
+    given in their options: "sc" = factor * <input>, "sc2" = factor2 * <input>."""
+
+    def __init__(self) -> None:
+        from mloda.provider import FeatureGroup, DataCreator
+        from harness.universe import native_table, column_values, with_columns
+        _nest_counter[0] += 1
+        tag = f"N{_nest_counter[0]}"
+
+        def root_input_data(cls: Any) -> Any:
+            return DataCreator({"s"})
+
+        def root_calc(cls: Any, data: Any, features: Any) -> Any:
+            f = next(iter(features.features))
+            return native_table(f.get_compute_framework().__name__, {"s": [1, 2, 3]})
+        self.root = type(f"{tag}_S", (FeatureGroup,), {"input_data": classmethod(root_input_data),
+                                                       "calculate_feature": classmethod(root_calc)})
+
+        def mk_dep(name: str, key: str) -> type:
+            def match(cls: Any, feature_name: Any, options: Any, dac: Any = None) -> bool:
+                return str(feature_name) == name
+
+            def input_features(self: Any, options: Any, feature_name: Any) -> Any:
+                return set(options.get_in_features())
+
+            def calc(cls: Any, data: Any, features: Any) -> Any:
+                f = next(iter(features.features))
+                factor = f.options.get(key)
+                src = next(iter(f.options.get_in_features())).get_name()
+                return with_columns(data, {name: [factor * v for v in column_values(data, src)]})
+            return type(f"{tag}_{name}", (FeatureGroup,), {"match_feature_group_criteria": classmethod(match),
+                                                            "input_features": input_features, "calculate_feature": classmethod(calc)})
+        self.sc = mk_dep("sc", "factor")
+        self.sc2 = mk_dep("sc2", "factor2")
+
+    def collector(self) -> Any:
+        from mloda.user import PluginCollector
+        return PluginCollector.enabled_feature_groups({self.root, self.sc, self.sc2})
+
+
+_UNCOPYABLE: Dict[str, Any] = {}
+
+
+def uncopyable(kind: Optional[str]) -> Any:
+    if kind is None:
+        return None
+    if kind not in _UNCOPYABLE:
+        if kind == "sqlite":
+            import sqlite3
+            _UNCOPYABLE[kind] = sqlite3.connect(":memory:", check_same_thread=False)
+        elif kind == "lock":
+            _UNCOPYABLE[kind] = threading.Lock()
+        else:
+            _UNCOPYABLE[kind] = (x for x in [1])          # a generator
+    return _UNCOPYABLE[kind]
+
+
+def gen_nest_case(rng: random.Random, deep_frozenset: bool = False) -> Dict[str, Any]:
+    calls = []
+    first_cfw = rng.choice(["PandasDataFrame", "PyArrowTable"])
+    other = "PyArrowTable" if first_cfw == "PandasDataFrame" else "PandasDataFrame"
+    calls.append({"cfw": first_cfw, "factor": 2, "reuse": "all", "kind": rng.choice(["run_all", "prepare_run"])})
+    for _ in range(rng.randrange(1, 3)):
+        v = rng.random()
+        if v < 0.4:
+            calls.append({"cfw": other, "factor": 2, "reuse": "all", "kind": rng.choice(["run_all", "prepare_run", "prepare_stream"])})
+        elif v < 0.8:      # the same nested source objects below a NEW dependent feature with another group option
+            calls.append({"cfw": rng.choice([first_cfw, other]), "factor": rng.choice([3, 5]), "reuse": "nested", "kind": "run_all"})
+        else:
+            calls.append({"cfw": first_cfw, "factor": 2, "reuse": "all", "kind": "run_all"})
+    levels = rng.choice([1, 1, 2])
+    container = rng.choice(["frozenset", "frozenset", "single", "list"])
+    if levels == 2 and container == "frozenset" and not deep_frozenset:
+        # two levels of frozenset-nested features take 20-40 s per call in mloda itself (deepcopy of a frozenset hashes
+        # its Feature elements, Feature.__hash__ deep-copies child_options, ... until RecursionError): thorough tier only
+        container = rng.choice(["single", "list"])
+    return {"levels": levels, "container": container,
+            "in_where": rng.choice(["context", "context", "group"]),
+            "uncopyable": rng.choice(["sqlite", "lock", "generator", "sqlite", None]),
+            "unc_where": rng.choice(["same", "same", "same", "other"]), "calls": calls}
+
+
+class NestPool:
+    def __init__(self, case: Dict[str, Any]) -> None:
+        from mloda.user import Feature
+        self.case = case
+        self.src = Feature("s")
+        self.mid = None
+        inner = self.src
+        if case["levels"] == 2:
+            self.mid = Feature("sc", self._opts({"factor": 4}, self.src))
+            inner = self.mid
+        self.inner = inner
+        self.requested = self.make_requested(2)
+
+    def _container(self, f: Any) -> Any:
+        c = self.case["container"]
+        return frozenset({f}) if c == "frozenset" else [f] if c == "list" else f
+
+    def _opts(self, group: Dict[str, Any], nested: Any) -> Any:
+        from mloda.user import Options
+        from mloda_plugins.feature_group.experimental.default_options_key import DefaultOptionKeys
+        IN = DefaultOptionKeys.in_features
+        g, c = dict(group), {}
+        (c if self.case["in_where"] == "context" else g)[IN] = self._container(nested)
+        unc = uncopyable(self.case["uncopyable"])
+        if unc is not None:
+            same = c if self.case["in_where"] == "context" else g
+            oth = g if self.case["in_where"] == "context" else c
+            # an uncopyable value in the group would make Options unhashable: keep it in the context
+            (same if (self.case["unc_where"] == "same" and same is c) else c)["resource"] = unc
+            _ = oth
+        return Options(group=g, context=c)
+
+    def make_requested(self, factor: int) -> Any:
+        from mloda.user import Feature
+        if self.case["levels"] == 2:
+            return Feature("sc2", self._opts({"factor2": factor}, self.inner))
+        return Feature("sc", self._opts({"factor": factor}, self.inner))
+
+    def objects(self) -> Dict[str, Any]:
+        return {"requested": self.requested, "mid": self.mid, "src": self.src}
+
+
+def nest_call(nu: NestUniverse, feats: List[Any], call: Dict[str, Any]) -> Tuple[str, Any]:
+    from mloda.user import mloda
+    from harness.universe import cfw_class, load_transformers
+    load_transformers()
+    kw = dict(compute_frameworks={cfw_class(call["cfw"])}, plugin_collector=nu.collector())
+    try:
+        if call["kind"] == "run_all":
+            return ("ok", canon_tables(mloda.run_all(feats, **kw)))
+        sess = mloda.prepare(feats, **kw)
+        first = canon_tables(sess.run())
+        second = canon_tables(list(sess.stream_run())) if call["kind"] == "prepare_stream" else canon_tables(sess.run())
+        return ("ok", [first, second])
+    except Exception as e:  # noqa: BLE001
+        return ("raised", f"{type(e).__name__}: {str(e)[:90]}")
+
+
+def run_nest_case(case: Dict[str, Any]) -> Dict[str, Any]:
+    nu = NestUniverse()
+    pool = NestPool(case)
+    ren = Renamer()
+    rec: Dict[str, Any] = {"case": case, "problems": [], "outcomes": []}
+    for ci, call in enumerate(case["calls"]):
+        # the request of this call: the shared requested feature, or a new dependent feature around the SAME nested objects
+        feats = [pool.requested] if call["reuse"] == "all" else [pool.make_requested(call["factor"])]
+        watched = dict(pool.objects(), this_request=feats[0])
+        before = {k: dump(v, ren) for k, v in watched.items()}
+        got = nest_call(nu, feats, call)
+        after = {k: dump(v, ren) for k, v in watched.items()}
+        if before != after:
+            rec["problems"].append(f"call {ci} {call}: copy_features=True but the caller's (nested) Feature objects were modified: "
+                                   f"{diff_paths(before, after)[:4]}")
+        fpool = NestPool(case)
+        ffeats = [fpool.requested] if (call["reuse"] == "all" and call["factor"] == 2) else [fpool.make_requested(call["factor"])]
+        fgot = nest_call(nu, ffeats, call)
+        rec["outcomes"].append((got[0], fgot[0]))
+        if got != fgot:
+            rec["problems"].append(f"call {ci} {call}: outcome with the re-used objects {str(got)[:160]} differs from the outcome with "
+                                   f"fresh equal objects {str(fgot)[:160]}")
+    return rec
+
+
+def part_c(rep: vlib.Reporter, tier: str, rng: random.Random) -> bool:
+    n = 400 if tier == "thorough" else 48
+    dist: Dict[str, Any] = {"sequences": 0, "calls": 0, "levels": {}, "container": {}, "uncopyable": {}, "second_call": {},
+                            "outcomes": {}, "uncopyable_next_to_nested_features": 0}
+    found = False
+    # fixed cases first: every container x {sqlite, lock} x {other framework, other group option}, 1 and 2 levels
+    fixed = []
+    for levels in (1, 2):
+        for cont in ("frozenset", "single", "list"):
+            if levels == 2 and cont == "frozenset" and tier != "thorough":
+                continue
+            for unc in ("sqlite", "lock"):
+                for second in ({"cfw": "PyArrowTable", "factor": 2, "reuse": "all", "kind": "prepare_run"},
+                               {"cfw": "PandasDataFrame", "factor": 5, "reuse": "nested", "kind": "run_all"}):
+                    fixed.append({"levels": levels, "container": cont, "in_where": "context", "uncopyable": unc, "unc_where": "same",
+                                  "calls": [{"cfw": "PandasDataFrame", "factor": 2, "reuse": "all", "kind": "run_all"}, second]})
+    for k in range(len(fixed) + n):
+        case = fixed[k] if k < len(fixed) else gen_nest_case(rng, deep_frozenset=(tier == "thorough" and k % 100 == 0))
+        rec = run_nest_case(case)
+        dist["sequences"] += 1
+        dist["calls"] += len(case["calls"])
+        rep.count(2 * len(case["calls"]))
+        for key in ("levels", "container", "uncopyable"):
+            dist[key][str(case[key])] = dist[key].get(str(case[key]), 0) + 1
+        dist["uncopyable_next_to_nested_features"] += int(case["uncopyable"] is not None and case["in_where"] == "context")
+        for c in case["calls"][1:]:
+            kk = "nested objects below another dependent feature" if c["reuse"] == "nested" else \
+                 ("other framework" if c["cfw"] != case["calls"][0]["cfw"] else "same call again")
+            dist["second_call"][kk] = dist["second_call"].get(kk, 0) + 1
+        for o in rec["outcomes"]:
+            dist["outcomes"][str(o)] = dist["outcomes"].get(str(o), 0) + 1
+        if case["uncopyable"] is not None and len(case["calls"]) >= 2:
+            rep.nontrivial(("C", case))
+        for p in rec["problems"]:
+            found = True
+            rep.finding("nested:" + p[:90] + json.dumps(case, sort_keys=True)[:160], "nested option features: " + p,
+                        {"kind": "nested", "case": case, "problem": p})
+    rep.add("nested_feature_sequences", dist)
+    return found
+
+
+# ============================================================================================================
 # run / replay
 # ============================================================================================================
 
@@ -852,13 +1070,19 @@ def run(rep: vlib.Reporter, tier: str, seed: int) -> None:
         "tables with a fresh run_all is established by direct comparison on every generated history, not by proof",
         "THREADING histories are replayed against a canonical fair schedule (every started step completes before the next "
         "loop iteration); the theorem itself quantifies over all schedules",
+        "Feature objects nested in option values (in_features) and option values that cannot be deep-copied are outside "
+        "Model/Args.v: Options.__deepcopy__ is covered by direct observation only (part C: deep snapshot of the nested objects "
+        "before/after every call, re-used vs fresh equal objects)",
     ]
     found = part_a(rep, tier, random.Random(seed * 7919 + 7))
     found = part_b(rep, tier, random.Random(seed * 7927 + 11)) or found
+    found = part_c(rep, tier, random.Random(seed * 7933 + 13)) or found
     rep.add("rule", "A: PRNG histories on one session; non-trivial = >= 3 operation kinds incl. a failing and a successful one. "
                     "B: PRNG sequences of 2-5 prepare/run_all calls over a shared pool of Feature/Options/Link/GlobalFilter/api_data "
                     "objects; non-trivial = the GlobalFilter is passed to >= 2 calls incl. the last, or a feature carries a Link, or a "
-                    "copy_features=False call.")
+                    "copy_features=False call. C: requests whose features carry Feature objects as in_features (1-2 levels; frozenset, "
+                    "single, list) next to an option value that cannot be deep-copied (sqlite connection, lock, generator); second call "
+                    "on another framework / the same nested objects below another dependent feature; non-trivial = uncopyable value present.")
     if not pr.ok and not found:
         rep.finding("proof-broken", "Props/C07.v no longer checks",
                     {"failed_files": pr.failed_files, "forbidden": pr.forbidden, "log_tail": pr.log[-3000:]}, found_input=False)
@@ -871,6 +1095,10 @@ def replay(path: str) -> int:
         rec = run_session_case(r["case"], r.get("ops"))
         print(json.dumps({"ops": rec.get("ops"), "obs": rec.get("obs"), "problems": rec.get("problems")}, indent=1, default=str))
         return 1 if rec.get("problems") else 0
+    if r.get("kind") == "nested":
+        rec = run_nest_case(r["case"])
+        print(json.dumps({"outcomes": rec["outcomes"], "problems": rec["problems"]}, indent=1, default=str))
+        return 1 if rec["problems"] else 0
     if r.get("kind") == "args":
         rec = run_args_case(r["case"])
         print(json.dumps({"calls": [{k: c[k] for k in ("call", "err", "plan", "run", "same", "same_run")}
